@@ -1,8 +1,16 @@
 #!/usr/bin/env python3
 # Generates MANIFEST.json from the table below (single source of truth for the check registry).
 import json
-HEAD = "d9dd131"
+HOOKS = ["d9dd131", "17b43f7"]
 checks = {
+ "C02": dict(level="model_checking", engine="E1",
+   text="Same transition system as C01 (real server, explicit update delivery). On EVERY reached state the check-extension QUIESCE delivers all held updates to all sessions (real ApplyUpdate), issues NOOP and compares the session's rows with a freshly opened EXAMINE session (UID order and flags, \\Recent ignored). Because the extension runs after every prefix, every placement of the observer's flushes relative to the other parties' steps within the depth is covered.",
+   note="Bounds as C01 plus a connector-heavy family. Known findings (ordering defect when a session acts on a message while an older update about it is undelivered) are listed in known_findings.json and matched by discrepancy class + the stale-own-action witness, so other convergence failures are still reported.",
+   technique="explicit-state BFS over event histories of the implementation with a quiescence check-extension on every state", design="3/C02"),
+ "C05": dict(level="model_checking", engine="E1",
+   text="Exhaustive BFS over removal-heavy histories (connector/other-session removals, re-adds, moves out and back) with the observer's next command ranging over every command kind; a wire monitor checks that no EXPUNGE arrives inside FETCH/STORE/SEARCH (incl. UID forms), that held-back removals are flagged with [EXPUNGEISSUED], that after every permitting command no delivered removal is left unannounced, and (through the mirror and the quiescence oracle) that remove/re-add pairs are announced in order.",
+   note="Bounds: <=3 sessions, 2 mailboxes, depth 4/6. Held-back removals are read from the responder queue through the verif dump hook.",
+   technique="explicit-state BFS over event histories of the implementation with a wire monitor", design="3/C05"),
  "C01": dict(level="model_checking", engine="E1",
    text="Exhaustive explicit-state search (BFS, canonical-state hashing) over all event histories up to the reported depth of the real server: session commands, connector updates and explicit delivery of every queued state update; on every reached state a client-side mirror built only from untagged EXISTS/EXPUNGE/FETCH is compared with the server's own answer (probe). Bounded model checking of the implementation is the right level because the property quantifies over histories and delivery schedules, which are finite once delivery is an explicit event.",
    note="Bounds: <=3 sessions, 2 mailboxes, 3 initial messages, depth 4 (quick) / 6 (thorough) per alphabet family, union alphabet to depth 2/4. Trusted: verif hold/deliver hooks (build tag verif) faithfully replace the Go select between update queue and command channel; \\Recent not compared.",
@@ -18,7 +26,7 @@ m = {
    "guard": "verif",
    "enable": "go build -tags verif (hooks in internal/state/verif_on.go, internal/backend/backend_verif.go, verif_export.go; call sites in internal/state/state.go compile to no-ops without the tag)",
    "baseline_off_cmd": "cd /repo && go test -mod=mod -json -vet=off -count=1 -timeout 25m ./...",
-   "source_commits": [HEAD],
+   "source_commits": HOOKS,
    "add_only": True,
  },
  "engines": [
